@@ -345,10 +345,15 @@ def run(ctx, rep):
     rep.clause("C01.3 rollback arm: gated by comparator, target epoch = message epoch, followed on every path by invalidation, retry marking, notification and re-processing")
     rep.clause("C01.5 the snapshot records the commit being applied as incumbent: epoch before merge, wrapper id, wrapper created_at")
     rep.clause("C01.4 terminal failure on the WrongEpoch arm must depend on the message epoch (commits ahead of their predecessor)")
+    rep.clause("C01.3b a rollback is decided only for an authenticated, authorised competing commit (known finding F16: it is decided on the wrapper's timestamp / id alone)")
     rep.not_decided = "convergence of real delivery schedules, MLS-state equality across members, fork-depth behaviour, OpenMLS internals"
     clause_snapshot_before_merge(prog, rep)
     clause_comparator(prog, rep)
     clause_rollback_arm(prog, rep)
+    import os, sys
+    sys.path.insert(0, os.path.dirname(os.path.abspath(__file__)))
+    import c05
+    c05.clause_rollback_authenticated(prog, rep, "rollback-arm")
     clause_snapshot_args(prog, rep)
     clause_hydrated_incumbent(prog, rep)
     clause_future_epoch(prog, rep)
